@@ -16,7 +16,7 @@ pub fn registry(property: &str) -> Option<CheckSpec> {
         "C34" => Some(CheckSpec {
             property: "C34",
             level: "exploration",
-            parts: vec![Part::new(mapsim::MapSim, 120_000, 2_400_000)],
+            parts: vec![Part::new(mapsim::MapSim, 100_000, 1_800_000)],
             assumptions: vec![
                 "values are arbitrary bit patterns of the (Pod) value types; keys are drawn from a salted universe of 2x capacity".into(),
             ],
@@ -24,7 +24,7 @@ pub fn registry(property: &str) -> Option<CheckSpec> {
         "C15" => Some(CheckSpec {
             property: "C15",
             level: "exploration",
-            parts: vec![Part::new(poolsim::PoolSim, 100_000, 1_600_000)],
+            parts: vec![Part::new(poolsim::PoolSim, 100_000, 2_000_000)],
             assumptions: vec![
                 "the stored total of a pool is observed through its public Borsh encoding (store) / public fields (SDK)".into(),
             ],
@@ -32,7 +32,7 @@ pub fn registry(property: &str) -> Option<CheckSpec> {
         "C27" => Some(CheckSpec {
             property: "C27",
             level: "exploration",
-            parts: vec![Part::new(opensim::OpenSim, 250_000, 4_000_000)],
+            parts: vec![Part::new(opensim::OpenSim, 250_000, 5_000_000)],
             assumptions: vec![
                 "unit part only: the feed price object is driven directly; the chain-level part (reports through the oracle) is checked by the chain engine".into(),
             ],
@@ -40,7 +40,7 @@ pub fn registry(property: &str) -> Option<CheckSpec> {
         "C21" => Some(CheckSpec {
             property: "C21",
             level: "fault_enumeration",
-            parts: vec![Part::new(buffersim::BufferSim, 250_000, 4_000_000)],
+            parts: vec![Part::new(buffersim::BufferSim, 250_000, 5_000_000)],
             assumptions: vec![
                 "unit part: the revertible buffer of an in-memory Market account reached through the cfg(gmsol_verif) hook; virtual inventories disabled; RevertibleLiquidityMarket's deferred mint/burn is covered at chain level".into(),
                 "the revision words stored next to a committed item are treated as bookkeeping (they may change when that item is committed)".into(),
